@@ -7,6 +7,7 @@
 EXTENDS KrylovProg, TLC
 
 CONSTANTS N, AMax, AMaxCG, KMax, Methods,
+          Thin,      \* keep every Thin-th matrix (by a weighted entry sum); 1 = all
           Wide,      \* TRUE: more right-hand sides / preconditioners (thorough tier)
           BsBound    \* BiCGStab takes a further step only from states whose rationals are below this
                      \* size (the numbers of the second step grow like the 5th power: 32-bit TLC integers)
@@ -42,7 +43,12 @@ InitState(s) ==
                               rn2 |-> GmresResNorm2(Aq, Pq, fq, xq, Side(s.m)), prev |-> GmresResNorm2(Aq, Pq, fq, xq, Side(s.m))]
           [] OTHER -> RichInit(Aq, fq, xq)
 
-SysSet(m) == { s \in [A : {AsRows(M, N) : M \in IntMats(N, IF IsCG(m) THEN AMaxCG ELSE AMax)},
+Weight(M) == LET idx == {<<i, j>> : i \in 1..N, j \in 1..N}
+                 W[S \in SUBSET idx] == IF S = {} THEN 0
+                                        ELSE LET e == CHOOSE x \in S : TRUE IN (N * (e[1] - 1) + e[2]) * M[e[1]][e[2]] + W[S \ {e}]
+             IN  W[idx]
+Kept(M, m) == IsCG(m) \/ Thin = 1 \/ Weight(M) % Thin = 0
+SysSet(m) == { s \in [A : {AsRows(M, N) : M \in {X \in IntMats(N, IF IsCG(m) THEN AMaxCG ELSE AMax) : Kept(X, m)}},
                        f : FSet, x0 : XSet, P : PSet, m : {m}] :
                    IF IsCG(m) THEN PosDef(RMat(s.A)) /\ PosDef(RMat(s.P)) ELSE Nonsingular(RMat(s.A)) }
 Init == /\ sys \in UNION {SysSet(m) : m \in Methods}
